@@ -12,8 +12,8 @@ from concurrent.futures import ThreadPoolExecutor
 
 from .common import Oracle, Suite, merge
 
-GEN_UNITS = ["Threads", "ThreadsLines", "Backend", "Registry", "ContextPolicy"]
-LEAN_TARGETS = ["PasslibVerif.Props.C19"]
+GEN_UNITS = ["Threads", "ThreadsLines", "Backend", "Registry", "ContextPolicy", "LazyTables"]
+LEAN_TARGETS = ["PasslibVerif.Props.C19", "PasslibVerif.Props.C19Tables"]
 ASSUMPTIONS = [
     "every single access to shared state (one attribute load / store / delete on the shared object or class, one lock operation, one dict get/set) is atomic: CPython with the GIL; free-threaded builds are out of scope",
     "the theorems quantify over ALL interleavings of such single accesses, for any number of threads; the real-code correspondence can only preempt between source lines and explores a bounded subset (2 threads / 2 preemptions quick, up to 3 / 3 thorough), plus free-running stress",
@@ -170,6 +170,10 @@ def correspond(ctx):
     # ---- 2c. lazily built DES tables: a line-level schedule that stops the first thread between the table assignments
     p = subprocess.run([sys.executable, "-W", "ignore", os.path.join(TOOLS, "corr", "c19_des_demo.py")], capture_output=True, text=True, timeout=120, env=dict(os.environ, PYTHONPATH=REPO))
     o_slow.check("des-tables", p.returncode == 0, {"op": "des-tables"}, (p.stdout + p.stderr)[-300:], "both threads get the DES block")
+    # ---- 2e. the same for the Blowfish tables and for the digest look-up cache (first look-up of an OpenSSL-only digest)
+    for op, script, want in (("blowfish-tables", "c19_blowfish_demo.py", "both threads get the bcrypt digest"), ("lookup-hash-cache", "c19_lookup_hash_demo.py", "both threads get the digest")):
+        p = subprocess.run([sys.executable, "-W", "ignore", os.path.join(TOOLS, "corr", script)], capture_output=True, text=True, timeout=120, env=dict(os.environ, PYTHONPATH=REPO))
+        o_slow.check(op, p.returncode == 0, {"op": op}, (p.stdout + p.stderr)[-300:], want)
     # ---- 3. after initialisation: concurrent hash / verify on shared hashers and contexts = sequential answers
     for r in post_init_runs(1 if not ctx.thorough else 10):
         o_post.check(r["what"], r["ok"], {"op": "post-init", "what": r["what"]}, r["observed"], "the answers of the sequential run")
@@ -360,6 +364,10 @@ def replay(ctx, inp):
         return {"fails": "crash" in r or bool(r.get("bad")), "observed": r}
     if op == "des-tables":
         p = subprocess.run([sys.executable, "-W", "ignore", os.path.join(TOOLS, "corr", "c19_des_demo.py")], capture_output=True, text=True, timeout=120, env=dict(os.environ, PYTHONPATH=REPO))
+        return {"fails": p.returncode != 0, "observed": (p.stdout + p.stderr)[-300:]}
+    if op in ("blowfish-tables", "lookup-hash-cache"):
+        script = {"blowfish-tables": "c19_blowfish_demo.py", "lookup-hash-cache": "c19_lookup_hash_demo.py"}[op]
+        p = subprocess.run([sys.executable, "-W", "ignore", os.path.join(TOOLS, "corr", script)], capture_output=True, text=True, timeout=120, env=dict(os.environ, PYTHONPATH=REPO))
         return {"fails": p.returncode != 0, "observed": (p.stdout + p.stderr)[-300:]}
     if op == "slow-window":
         runs = worker({"repo": REPO, "proto": inp["proto"], "n": 4, "points": [], "schedules": [], "slow": 3, "slow_n": inp.get("threads", 4)}).get("slow", [])
